@@ -117,8 +117,8 @@ func (d *Ar) Next() (*ArEntry, error) {
 
 // Take a byte array, and return an int64
 func toDecimal(input string) (int64, error) {
-	out, err := strconv.Atoi(input)
-	return int64(out), err
+	/* not Atoi: sizes and timestamps need 64 bits on every platform */
+	return strconv.ParseInt(input, 10, 64)
 }
 
 // }}}
